@@ -424,6 +424,90 @@ func c12(repo string, out *fg.Out) error {
 		return fmt.Errorf("ReconcileOrphanedFiles: unmodelled UpdateTier")
 	}
 
+	// the reconcile loop must visit EVERY enumerated file: no `break`, and `return` only on ctx cancellation
+	{
+		var loop *ast.RangeStmt
+		ast.Inspect(rf, func(n ast.Node) bool {
+			if r, ok := n.(*ast.RangeStmt); ok && loop == nil && len(fg.CallsNamed(r, "Exists")) == 1 {
+				loop = r
+			}
+			return true
+		})
+		if loop == nil || mig.Text(loop.X) != mig.Text(gr[0]) && !strings.Contains(mig.Text(rf), mig.Text(loop.X)+", err := m.manager.metadata.GetRecentlyMigratedFiles") {
+			return fmt.Errorf("ReconcileOrphanedFiles: loop over the GetRecentlyMigratedFiles result not found")
+		}
+		var bad error
+		var walk func(n ast.Node, inCtxDone bool)
+		walk = func(n ast.Node, inCtxDone bool) {
+			ast.Inspect(n, func(c ast.Node) bool {
+				switch x := c.(type) {
+				case *ast.FuncLit:
+					return false
+				case *ast.CommClause:
+					done := x.Comm != nil && strings.Contains(mig.Text(x.Comm), "ctx.Done()")
+					for _, b := range x.Body {
+						walk(b, done)
+					}
+					return false
+				case *ast.BranchStmt:
+					if x.Tok == token.BREAK || x.Tok == token.GOTO {
+						bad = fmt.Errorf("ReconcileOrphanedFiles line %d: the loop over migrated files ends early (%s); reconciliation must check every file in the window", mig.Line(x), x.Tok)
+					}
+				case *ast.ReturnStmt:
+					if !inCtxDone {
+						bad = fmt.Errorf("ReconcileOrphanedFiles line %d: the loop over migrated files returns early outside ctx cancellation", mig.Line(x))
+					}
+				}
+				return true
+			})
+		}
+		walk(loop.Body, false)
+		if bad != nil {
+			return bad
+		}
+	}
+
+	// ---- tier cache: which MetadataStore mutators invalidate the per-measurement tier cache
+	mdf, err := fg.ParseFile(repo, "internal/tiering/metadata.go")
+	if err != nil {
+		return err
+	}
+	var invalidators []string
+	for _, mu := range [][2]string{{"RecordFile", "recordFile"}, {"UpdateTier", "updateTier"}, {"DeleteFile", "deleteFile"}} {
+		fd := mdf.FuncDecl("MetadataStore", mu[0])
+		if fd == nil {
+			return fmt.Errorf("MetadataStore.%s not found", mu[0])
+		}
+		if len(fg.CallsNamed(fd, "invalidateTierCache")) > 0 {
+			invalidators = append(invalidators, "."+mu[1])
+		}
+	}
+	// any other method writing tier_files would be an unmodelled mutator
+	for _, d := range mdf.AST.Decls {
+		fd, ok := d.(*ast.FuncDecl)
+		if !ok || fd.Body == nil || fd.Name.Name == "initSchema" {
+			continue
+		}
+		txt := mdf.Text(fd.Body)
+		if (strings.Contains(txt, "UPDATE tier_files") || strings.Contains(txt, "INSERT INTO tier_files") || strings.Contains(txt, "DELETE FROM tier_files")) &&
+			fd.Name.Name != "RecordFile" && fd.Name.Name != "UpdateTier" && fd.Name.Name != "DeleteFile" {
+			return fmt.Errorf("metadata.go: unmodelled tier_files mutator %s", fd.Name.Name)
+		}
+	}
+	mdEnv := fg.NewConstEnv([]*fg.File{mdf})
+	ttlExpr, ok := mdEnv.Exprs["tierCacheTTL"]
+	if !ok {
+		return fmt.Errorf("const tierCacheTTL not found")
+	}
+	ttlNs, err := mdEnv.EvalInt(ttlExpr)
+	if err != nil || ttlNs <= 0 || ttlNs%1000000000 != 0 {
+		return fmt.Errorf("tierCacheTTL not a whole number of seconds")
+	}
+	gt := mdf.FuncDecl("MetadataStore", "GetTiersForMeasurement")
+	if gt == nil || !strings.Contains(mdf.Text(gt), "time.Now().Before(entry.expiresAt)") || !strings.Contains(mdf.Text(gt), "time.Now().Add(tierCacheTTL)") {
+		return fmt.Errorf("GetTiersForMeasurement: cache hit/fill shape changed")
+	}
+
 	// ---- RunMigrationCycle phase order
 	rc := man.FuncDecl("Manager", "RunMigrationCycle")
 	if rc == nil {
@@ -610,6 +694,9 @@ func c12(repo string, out *fg.Out) error {
 	fmt.Fprintf(L, "/-- ReconcileOrphanedFiles: metadata tier it enumerates, tier it probes with Exists, tier it deletes from -/\n")
 	fmt.Fprintf(L, "def recGuard : Tier := .%s\ndef recProbe : Tier := .%s\ndef recDelete : Tier := .%s\n", recGuard, recProbe, recDel)
 	fmt.Fprintf(L, "def reconcileWindowHours : Nat := %d\n\n", windowNs/3600000000000)
+	fmt.Fprintf(L, "/-- … and its loop visits every enumerated file (no early break/return except ctx cancellation) -/\ndef recLoopExhaustive : Bool := true\n\n")
+	fmt.Fprintf(L, "/-- MetadataStore mutators of tier_files that call invalidateTierCache; TTL of GetTiersForMeasurement's cache -/\n")
+	fmt.Fprintf(L, "def cacheInvalidatedBy : List Mutator := [%s]\ndef tierCacheTTLSeconds : Nat := %d\n\n", strings.Join(invalidators, ", "), ttlNs/1000000000)
 	fmt.Fprintf(L, "/-- ScanAndRegisterFiles upserts every object listed in the hot backend with this tier -/\ndef scanTier : Tier := .%s\n/-- … unless the path already has a tier_files row -/\ndef scanSkipsRegistered : Bool := %v\n\n", scanTier, scanSkips)
 	var names []string
 	for _, p := range phs {
@@ -636,6 +723,7 @@ func c12(repo string, out *fg.Out) error {
 		return r
 	}()
 	out.JSON["scan_tier"] = scanTier
+	out.JSON["cache_invalidated_by"] = invalidators
 	out.JSON["scan_skips_registered"] = scanSkips
 	out.JSON["copy_src_err_propagates"] = true
 	return nil
